@@ -14,6 +14,7 @@ import (
 	"time"
 
 	"github.com/anishathalye/porcupine"
+	sgbucket "github.com/couchbase/sg-bucket"
 	"github.com/couchbase/sync_gateway/base"
 	"verif/vlib"
 )
@@ -24,7 +25,7 @@ import (
 // storage steps (including the compute→CAS window); an interferer bumps the document's CAS at
 // chosen retry points without superseding the parent (forced CAS failure). Oracles at quiescence.
 
-const c05SyncFn = `function(doc, oldDoc){ channel("A"); }`
+const c05SyncFn = `function(doc, oldDoc){ channel(doc.chan || (oldDoc && oldDoc.chan) || "A"); }`
 
 type c05Attempt struct {
 	Writer  string `json:"writer"`
@@ -92,6 +93,10 @@ func c05RunCase(t *testing.T, run *vlib.Run, e *c05Env, spec c05Spec, chooser vl
 	}
 	var mu sync.Mutex
 	var attempts []*c05Attempt
+	// every case has its own channel: its channel cache is created by the first changes request, which in the
+	// unscheduled (stress) cases races with the writers
+	caseChannel := fmt.Sprintf("c05ch%d", e.caseN)
+	fillers := map[string]c05Filler{}
 	e.vs.ResetLog()
 	interfereAt := map[int]bool{}
 	for _, a := range spec.Interfere {
@@ -137,7 +142,7 @@ func c05RunCase(t *testing.T, run *vlib.Run, e *c05Env, spec c05Spec, chooser vl
 			var werr error
 			switch kind {
 			case "put":
-				body := Body{"m": a.Marker}
+				body := Body{"m": a.Marker, "chan": caseChannel}
 				if a.Parent != "" {
 					body[BodyRev] = a.Parent
 				}
@@ -155,7 +160,7 @@ func c05RunCase(t *testing.T, run *vlib.Run, e *c05Env, spec c05Spec, chooser vl
 				if a.Parent != "" {
 					hist = append(hist, a.Parent)
 				}
-				d, rev, werr = collection.PutExistingRevWithBody(ctx, doc, Body{"m": a.Marker}, hist, true, ExistingVersionWithUpdateToHLV)
+				d, rev, werr = collection.PutExistingRevWithBody(ctx, doc, Body{"m": a.Marker, "chan": caseChannel}, hist, true, ExistingVersionWithUpdateToHLV)
 			}
 			a.Ret = e.clock.Add(1)
 			switch {
@@ -196,13 +201,47 @@ func c05RunCase(t *testing.T, run *vlib.Run, e *c05Env, spec c05Spec, chooser vl
 		}
 	} else {
 		var wg sync.WaitGroup
+		stopReader := make(chan struct{})
+		readerDone := make(chan struct{})
+		go func() {
+			// a changes client of the case's channel racing with the writers (the first request creates the channel cache)
+			defer close(readerDone)
+			for {
+				select {
+				case <-stopReader:
+					return
+				default:
+				}
+				if feed, err := collection.MultiChangesFeed(ctx, base.SetOf(caseChannel), ChangesOptions{ChangesCtx: ctx}); err == nil {
+					for range feed {
+					}
+					run.Count("changes_requests_racing_with_writers", 1)
+				}
+			}
+		}()
 		for w := 0; w < spec.Writers; w++ {
 			name := fmt.Sprintf("w%d", w)
 			wr := r.Fork(uint64(w) + 50)
 			wg.Add(1)
 			go func() { defer wg.Done(); writer(name, wr) }()
 		}
+		// single-write documents in the same channel: each one's only (= final) revision can fall into the window
+		// in which the channel's cache is being created by the racing reader
+		wg.Add(1)
+		go func() {
+			defer wg.Done()
+			for i := 0; i < 40; i++ {
+				id := fmt.Sprintf("c05-%d-f%d", e.caseN, i)
+				if rev, d, err := collection.Put(ctx, id, Body{"m": id, "chan": caseChannel}); err == nil {
+					mu.Lock()
+					fillers[id] = c05Filler{rev, d.Sequence}
+					mu.Unlock()
+				}
+			}
+		}()
 		wg.Wait()
+		close(stopReader)
+		<-readerDone
 	}
 	log := e.vs.Log()
 
@@ -359,6 +398,11 @@ func c05RunCase(t *testing.T, run *vlib.Run, e *c05Env, spec c05Spec, chooser vl
 		run.Count("documents_checked", 1)
 	}
 	// (6) the changes feed ends on each document's final revision
+	for _, f := range fillers {
+		if f.Seq > maxSeq {
+			maxSeq = f.Seq
+		}
+	}
 	if maxSeq > 0 {
 		deadline := time.Now().Add(15 * time.Second)
 		for e.db.changeCache.getNextSequence() <= maxSeq && time.Now().Before(deadline) {
@@ -367,7 +411,7 @@ func c05RunCase(t *testing.T, run *vlib.Run, e *c05Env, spec c05Spec, chooser vl
 		if e.db.changeCache.getNextSequence() <= maxSeq {
 			run.Inconclusive("change cache did not reach the last acknowledged sequence within the watchdog")
 		} else {
-			feed, err := collection.MultiChangesFeed(ctx, base.SetOf("A"), ChangesOptions{ChangesCtx: ctx})
+			feed, err := collection.MultiChangesFeed(ctx, base.SetOf(caseChannel), ChangesOptions{ChangesCtx: ctx})
 			if err != nil {
 				run.Inconclusive("changes feed error: " + err.Error())
 			} else {
@@ -375,6 +419,14 @@ func c05RunCase(t *testing.T, run *vlib.Run, e *c05Env, spec c05Spec, chooser vl
 				for entry := range feed {
 					if entry != nil && entry.Err == nil {
 						last[entry.ID] = entry
+					}
+				}
+				for id, f := range fillers {
+					ent := last[id]
+					run.Count("single_write_documents_checked_on_feed", 1)
+					if ent == nil || ent.Seq.Seq != f.Seq {
+						run.Violation("feed", "C05|changes-feed-does-not-announce-an-acknowledged-single-write-document", fmt.Sprintf("%s acknowledged as %s at sequence %d while a changes client was first reading its channel; after quiescence the channel's feed does not list it", id, f.Rev, f.Seq), wit())
+						break
 					}
 				}
 				for _, doc := range docs {
@@ -438,6 +490,11 @@ func c05Revs(d *Document) []string {
 	}
 	sort.Strings(out)
 	return out
+}
+
+type c05Filler struct {
+	Rev string
+	Seq uint64
 }
 
 type c05In struct {
@@ -544,6 +601,14 @@ func TestVerif_C05_Random(t *testing.T) {
 func TestVerif_C05_Stress(t *testing.T) {
 	run := vlib.Start(t, "C05", "stress")
 	defer run.Finish()
+	// widen the window between "valid from the current high sequence" and the publication of a new channel cache
+	// (hook H2; inside the cache's own lock on a correct tree, where the delay adds nothing)
+	SetVerifPointHook(func(name string) {
+		if name == "channel-cache-between-validfrom-and-insert" {
+			time.Sleep(2 * time.Millisecond)
+		}
+	})
+	defer SetVerifPointHook(nil)
 	e := c05NewEnv(t, true)
 	defer e.Close()
 	total := run.N(60, 1500)
@@ -661,6 +726,59 @@ func TestVerif_C05_Scenarios(t *testing.T) {
 		}
 		if variant == 0 {
 			run.Sample(wit)
+		}
+	}
+
+	// (S3) the post-commit CAS re-stamp of writer 1 (generated version ahead of the CAS: gateway clock ahead of the
+	// store's) is overtaken by writer 2's complete, acknowledged write: writer 2's revision must survive.
+	for variant := 0; variant < run.N(3, 10); variant++ {
+		e.caseN++
+		doc := fmt.Sprintf("c05-s3-%d", e.caseN)
+		e.vs.ResetLog()
+		rev1, _, err := collection.Put(ctx, doc, Body{"m": "s3-1", "chan": "A"})
+		if err != nil {
+			t.Fatalf("s3 setup: %v", err)
+		}
+		offset := uint64(time.Duration(20+10*variant) * time.Millisecond)
+		e.db.hlc.SetClockForTest(func() uint64 { return sgbucket.HLCWallClock() + offset })
+		fired := false
+		var rev3 string
+		var seq3 uint64
+		var err3 error
+		e.vs.SetFault(func(op *base.VerifOp, actor string) base.VerifDecision {
+			if op.Kind == "UpdateXattrs" && op.Key == doc && !fired {
+				fired = true
+				e.db.hlc.SetClockForTest(sgbucket.HLCWallClock)
+				if cur, gerr := collection.GetDocument(ctx, doc, DocUnmarshalSync); gerr == nil {
+					var d3 *Document
+					rev3, d3, err3 = collection.Put(ctx, doc, Body{BodyRev: cur.GetRevTreeID(), "m": "s3-3", "chan": "A"})
+					if err3 == nil {
+						seq3 = d3.Sequence
+					}
+				}
+			}
+			return base.VerifDecision{}
+		})
+		rev2, _, err2 := collection.Put(ctx, doc, Body{BodyRev: rev1, "m": "s3-2", "chan": "A"})
+		e.vs.SetFault(nil)
+		e.db.hlc.SetClockForTest(sgbucket.HLCWallClock)
+		run.Eval()
+		if !fired {
+			run.Count("s3_restamp_did_not_run", 1)
+			continue
+		}
+		run.Count("s3_restamp_overtaken_cases", 1)
+		run.Nontrivial(fmt.Sprintf("s3/%d", variant))
+		final, ferr := collection.GetDocument(ctx, doc, DocUnmarshalAll)
+		wit := map[string]any{"scenario": "writer 1's post-commit CAS re-stamp overtaken by writer 2", "rev1": rev1, "rev2": rev2, "err2": fmt.Sprint(err2), "rev3": rev3, "err3": fmt.Sprint(err3), "seq3": seq3}
+		if ferr != nil || final == nil || err2 != nil || err3 != nil {
+			run.Inconclusive("s3 scenario did not run as planned")
+			continue
+		}
+		wit["stored_history"] = c05Revs(final)
+		if _, ok := final.History[rev3]; !ok || final.GetRevTreeID() != rev3 || final.Sequence != seq3 || len(final.History) != 3 {
+			run.Violation("lost-write", "C05|acknowledged-write-overwritten-by-the-post-commit-re-stamp-of-the-previous-writer",
+				fmt.Sprintf("%s: writer 2 was acknowledged %s at sequence %d while writer 1's re-stamp was pending; stored current revision %s, sequence %d, history %v", doc, rev3, seq3, final.GetRevTreeID(), final.Sequence, c05Revs(final)), wit)
 		}
 	}
 
